@@ -85,7 +85,8 @@ def minimise(world, plan, focus, violation, max_execs=400, max_seconds=60.0):
             else:
                 n = max(2, n - 1)
     # host-process state that turns out not to matter is put back to the plain default
-    for key, plain in (("host_optimize", 0), ("host_tz", None), ("host_logging", "off")):
+    from .core import HOST_PLAIN
+    for key, plain in sorted(HOST_PLAIN.items()):
         if not budget_left():
             break
         if best.get(key, plain) != plain:
